@@ -228,6 +228,10 @@ class Interp:
             v = self.eval(expr, env, owner.module, owner)
         if ops.is_immutable(v):
             self.E.class_attr_cache[key] = v
+        else:       # a mutable class-level object is ONE object for the whole path: every later access aliases it (per-path store)
+            if not hasattr(self.ctx, "class_attrs") or self.ctx.class_attrs is None:
+                self.ctx.class_attrs = {}
+            self.ctx.class_attrs[key] = v
         return v
 
     # ------------------------------------------------------------------ calling
